@@ -31,26 +31,27 @@ const (
 )
 
 type CheckCfg struct {
-	ID          string            `json:"id"`
-	Pkg         string            `json:"pkg"`
-	Test        string            `json:"test,omitempty"`
-	Shards      map[string]int    `json:"shards,omitempty"`
-	CapSeconds  map[string]int    `json:"cap_seconds,omitempty"`
-	GOMAXPROCS  int               `json:"gomaxprocs,omitempty"`
-	Parallel    int               `json:"parallel,omitempty"` // max shard processes at once (default 16)
-	SyncRewrite []string          `json:"sync_rewrite,omitempty"`
-	ExtraPkgs   []string          `json:"extra_harness_pkgs,omitempty"` // other packages whose harness files (common + this id) are overlaid
-	RacePass    bool              `json:"race_pass,omitempty"`
-	Env         map[string]string `json:"env,omitempty"`
-	MemLimitMB  int               `json:"mem_limit_mb,omitempty"`
+	ID            string            `json:"id"`
+	Pkg           string            `json:"pkg"`
+	Test          string            `json:"test,omitempty"`
+	Shards        map[string]int    `json:"shards,omitempty"`
+	CapSeconds    map[string]int    `json:"cap_seconds,omitempty"`
+	GOMAXPROCS    int               `json:"gomaxprocs,omitempty"`
+	Parallel      int               `json:"parallel,omitempty"` // max shard processes at once (default 16)
+	SyncRewrite   []string          `json:"sync_rewrite,omitempty"`
+	ImportRewrite []string          `json:"import_rewrite,omitempty"`     // "pkg dir|import path|shim package"
+	ExtraPkgs     []string          `json:"extra_harness_pkgs,omitempty"` // other packages whose harness files (common + this id) are overlaid
+	RacePass      bool              `json:"race_pass,omitempty"`
+	Env           map[string]string `json:"env,omitempty"`
+	MemLimitMB    int               `json:"mem_limit_mb,omitempty"`
 
-	Level     string `json:"level"`
-	LevelText string `json:"level_text"`
-	LevelNote string `json:"level_note"`
-	Technique string `json:"technique"`
-	Engine    string `json:"engine"`
-	DesignRef string `json:"design_ref"`
-	HasThorough *bool `json:"has_thorough,omitempty"`
+	Level       string `json:"level"`
+	LevelText   string `json:"level_text"`
+	LevelNote   string `json:"level_note"`
+	Technique   string `json:"technique"`
+	Engine      string `json:"engine"`
+	DesignRef   string `json:"design_ref"`
+	HasThorough *bool  `json:"has_thorough,omitempty"`
 }
 
 func die(code int, format string, a ...any) {
